@@ -20,6 +20,7 @@ import (
 
 	"github.com/hashicorp/go-hclog"
 	"github.com/hashicorp/raft"
+	"github.com/robustirc/robustirc/internal/config"
 	"github.com/robustirc/robustirc/internal/ircserver"
 	"github.com/robustirc/robustirc/internal/outputstream"
 	"github.com/robustirc/robustirc/internal/robust"
@@ -332,6 +333,9 @@ func TestVerifC04(t *testing.T) {
 		for k := 0; k < n/3+1; k++ {
 			c04Restore(rep, rn, filepath.Join(dir, fmt.Sprintf("c04-restore-%d", k)), base*104729+int64(k))
 		}
+		for k := 0; k < n/3+1; k++ {
+			c04Closing(rep, rn, filepath.Join(dir, fmt.Sprintf("c04-closing-%d", k)), base*15485863+int64(k))
+		}
 	}
 }
 
@@ -445,6 +449,123 @@ func c04Restore(rep *verifrep.R, rn *raft.Raft, dir string, seed int64) {
 	rep.Cases(len(got) + len(resumed))
 	rep.Case(fmt.Sprintf("restore|refill=%d", []string{"all", "partial"}[b2i(refill < nOld)]))
 	rep.Obs("restore-under-open-request.messages-read", len(got)+len(resumed))
+}
+
+// c04Closing: the session of a client that has read everything is ended (QUIT by DELETE,
+// KILL by an operator) while its request is open. The entry that ends the session also
+// produces its last messages (the KILL/QUIT notification, "ERROR :Closing Link"); the state
+// machine stores them and then removes the session. A reader that is caught up receives
+// them before the stream ends.
+func c04Closing(rep *verifrep.R, rn *raft.Raft, dir string, seed int64) {
+	os.MkdirAll(dir, 0755)
+	defer os.RemoveAll(dir)
+	rng := rand.New(rand.NewSource(seed))
+	o, err := outputstream.NewOutputStream(dir)
+	if err != nil {
+		panic(err)
+	}
+	i := ircserver.NewIRCServer("robustirc.net", time.Unix(0, 1481144012969203276))
+	now := time.Unix(1500000000, 0)
+	for _, sid := range []uint64{c04Session, 6} {
+		i.CreateSession(robust.Id{Id: sid}, c04Auth, now)
+	}
+	next := uint64(10)
+	var expected []c04Got
+	run := func(sess uint64, typ robust.Type, line string) {
+		now = now.Add(time.Second)
+		msg := &robust.Message{Id: robust.Id{Id: next}, Session: robust.Id{Id: sess}, Type: typ, Data: line, UnixNano: now.UnixNano(), ClientMessageId: next}
+		ircline := line
+		if typ == robust.DeleteSession {
+			ircline = "QUIT :" + line
+		} else {
+			i.UpdateLastClientMessageID(msg)
+		}
+		reply := i.ProcessMessage(msg, irc.ParseMessage(ircline))
+		i.SetLastProcessed(robust.Id{Id: next})
+		// as the state machine does: first the output, then the session goes
+		if len(reply.Messages) > 0 {
+			msgs := make([]outputstream.Message, len(reply.Messages))
+			for k, m := range reply.Messages {
+				msgs[k] = outputstream.Message{Id: robust.Id{Id: next, Reply: m.Id.Reply}, Data: m.Data, InterestingFor: m.InterestingFor}
+				if m.InterestingFor[c04Session] {
+					expected = append(expected, c04Got{next, m.Id.Reply, m.Data})
+				}
+			}
+			if err := o.Add(msgs); err != nil {
+				panic(err)
+			}
+		}
+		time.Sleep(time.Duration(rng.Intn(3)) * time.Millisecond)
+		i.MaybeDeleteSession(robust.Id{Id: sess})
+		next += uint64(rng.Intn(2) + 1)
+	}
+	run(c04Session, robust.IRCFromClient, "NICK me")
+	run(c04Session, robust.IRCFromClient, "USER u 0 * :r")
+	run(6, robust.IRCFromClient, "NICK op")
+	run(6, robust.IRCFromClient, "USER u 0 * :r")
+	i.Config.IRC.Operators = []config.IRCOp{{Name: "op", Password: "pw"}}
+	run(6, robust.IRCFromClient, "OPER op pw")
+	run(c04Session, robust.IRCFromClient, "JOIN #a,#b")
+	run(6, robust.IRCFromClient, "JOIN #a")
+	for k := 0; k < 3+rng.Intn(6); k++ {
+		run(6, robust.IRCFromClient, fmt.Sprintf("PRIVMSG #a :m%d", k))
+	}
+	h := NewHTTP(i, rn, nil, o, nil, "robustirc.net", "pw", dir, "c04", true, 3)
+	mux := http.NewServeMux()
+	mux.HandleFunc("/robustirc/v1/", h.DispatchPublic)
+	srv := httptest.NewServer(mux)
+	defer func() {
+		srv.CloseClientConnections()
+		srv.Close()
+		time.Sleep(350 * time.Millisecond)
+		o.InterruptGetNext()
+		time.Sleep(20 * time.Millisecond)
+		o.Close()
+	}()
+	how := []string{"delete", "kill", "own-quit"}[rng.Intn(3)]
+	before := len(expected)
+	during := func() {
+		// the reader has drained the backlog by now and waits for more
+		time.Sleep(time.Duration(400+rng.Intn(200)) * time.Millisecond)
+		switch how {
+		case "delete":
+			run(c04Session, robust.DeleteSession, "Ping timeout (10m0s)")
+		case "kill":
+			run(6, robust.IRCFromClient, "KILL me :enough")
+			i.MaybeDeleteSession(robust.Id{Id: c04Session})
+		default:
+			run(c04Session, robust.IRCFromClient, "QUIT :bye")
+		}
+	}
+	got, code := c04Read(srv.URL, "0.0", 0, 3*time.Second, during)
+	if code != 200 {
+		rep.Inconclusive("C04", fmt.Sprintf("closing scenario: GET /messages answered %d", code))
+		return
+	}
+	if len(expected) == before {
+		rep.Broken("closing scenario: ending the session produced no message for it")
+		return
+	}
+	for k, g := range got {
+		if k >= len(expected) || g != expected[k] {
+			rep.Violation("C04", "gap", fmt.Sprintf("session ended by %s while its request was open: message #%d is %d.%d, expected %v", how, k, g.Id, g.Reply, expected[min(k, len(expected)-1)]), map[string]interface{}{"seed": seed, "closing": how})
+			return
+		}
+	}
+	if len(got) < len(expected) {
+		rep.Violation("C04", "never-delivered", fmt.Sprintf("session ended by %s while its request was open and the client had read everything before: the last %d messages (%.60q ...) never arrived; the stream ended after %s and the session cannot be resumed",
+			how, len(expected)-len(got), expected[len(got)].Data, lastOf(got)), map[string]interface{}{"seed": seed, "closing": how})
+	}
+	rep.Cases(len(got))
+	rep.Case("closing|" + how)
+	rep.Obs("closing.messages-read", len(got))
+}
+
+func min(a, b int) int {
+	if a < b {
+		return a
+	}
+	return b
 }
 
 func b2i(b bool) int {
